@@ -144,8 +144,12 @@ pub fn c14(s: &mut Sess, rng: &mut Rng, n: u64) {
             cont.push(Op::Put(j.clone(), c.clone()));
             cont.push(Op::Remove(j));
         }
-        cont.push(Op::Put(keys[rng.below(3) as usize].to_vec(), contents[rng.below(3) as usize].to_vec()));
-        if rng.chance(1, 3) { cont.push(Op::Checkpoint); }
+        // every other put target keeps the continuation minimal, so that nothing overwrites the
+        // failed put's key or checkpoints past its record before the reopen
+        if i % 6 != 4 {
+            cont.push(Op::Put(keys[rng.below(3) as usize].to_vec(), contents[rng.below(3) as usize].to_vec()));
+            if rng.chance(1, 3) { cont.push(Op::Checkpoint); }
+        }
         let Some(nev) = run(s, &cfg, &ops, target, target_line, 1_000_000, &cont) else { continue };
         s.out.add("fault.points", nev);
         for k in 0..nev {
